@@ -28,6 +28,7 @@ PID = "C19"
 def fault_job(args):
     jid, hist, base = args
     fp = use_repo()
+    D.WIDX = False
     import pandas as pd
     root = os.path.join(base, "f%d" % jid)
     d = os.path.join(root, "ds")
